@@ -107,6 +107,22 @@ def lookup_order_rule(F, rep):
             else:
                 rep.violation(rid, key, "%s answers with `%s` over the context stack in stack order: an outer binding shadows an inner one" % (name, mc.get("method")), where)
     rep.floor(rid, "first-hit scans over the scope stack", n_scan, 2)
+    # the context handed out / written by the single-context accessors is the top of the stack (the innermost one)
+    BOTTOM = {"first", "first_mut", "front", "front_mut"}
+    TOP = {"last", "last_mut", "back", "back_mut", "pop"}
+    for name, h in sorted(F.hir.items()):
+        if not name.startswith("dmntk_feel::scope::Scope::") or "{closure" in name:
+            continue
+        al = c10.aliases_of(h)
+        for mc, _ in find_hir(h["body"], lambda x: x.get("k") == "MethodCall" and x.get("method") in BOTTOM | TOP):
+            names, root = c10.chain_of(mc, al)
+            if not (root.get("k") == "Field" and root.get("name") == "contexts"):
+                continue
+            key = "top:%s" % name.split("::")[-1]
+            if mc["method"] in BOTTOM and "rev" not in names:
+                rep.violation(rid, key, "%s works on the *bottom* context of the scope stack (`%s`): the innermost context is the last one" % (name, mc["method"]), "%s:%s" % (h["file"], mc.get("l", h["line"])))
+            else:
+                rep.ok(rid, key, "top of the stack (`%s`)" % mc["method"])
 
 
 def value_test_in(F, tree):
